@@ -77,6 +77,7 @@ type Obligation struct {
 	vc      *VC
 	Pruned  bool
 	triedPruned bool
+	triedGround bool
 }
 
 type modLoc struct {
